@@ -183,7 +183,9 @@ MC["staking"] = {"quick": [("MCStaking", "mc/MCStaking_exits.cfg", {"reach": STA
                            ("MCStaking", "mc/MCStaking_cands.cfg", {"reach": STAKING_REACH_CANDS})],
                  "thorough": [("MCStaking", "mc/MCStaking_exits_t.cfg", {"reach": STAKING_REACH_EXITS}), ("MCStaking", "mc/MCStaking_punish_t.cfg", {"reach": STAKING_REACH_PUNISH}),
                               ("MCStaking", "mc/MCStaking_votes.cfg", {"reach": STAKING_REACH_VOTES}),
-                              ("MCStaking", "mc/MCStaking_cands.cfg", {"reach": STAKING_REACH_CANDS})]}
+                              ("MCStaking", "mc/MCStaking_cands.cfg", {"reach": STAKING_REACH_CANDS}),
+                              # all menus together, 12 blocks, 8 transactions: far too large to enumerate, drawn at random for ten minutes
+                              ("MCStaking", "mc/MCStaking_sim.cfg", {"simulate": 600})]}
 def markets(tier, seed):
     rnd = random.Random("%d/markets" % seed)
     pool_model = gens_markets.from_pool_model(vlib.tlc_generate_raw("MCPools", "gen/MCPoolsGen.cfg", big=True))
